@@ -6,5 +6,7 @@ package main
 func init() {
 	gfSpecs = append(gfSpecs,
 		gfSpec{Pkg: "./pkg/core", Recv: "HeaderHashes", Func: "lastHeaderIndex", Lean: "lastHeaderIndex"},
+		gfSpec{Pkg: "./pkg/core", Recv: "Blockchain", Func: "persist", Lean: "bcPersist"},
+		gfSpec{Pkg: "./pkg/core/statesync", Recv: "Module", Func: "Init", Lean: "statesyncModuleInit"},
 	)
 }
